@@ -1,10 +1,457 @@
-//! implementation-side drivers of work package "padding" (see docs/AGENT_GUIDE.md)
+//! implementation-side drivers of work package "padding" (C04, C05, C19; see docs/AGENT_GUIDE.md)
+//!
+//!  pfnew <rawhex>                         PaddingFactory::new            -> OK <stop> <md5> | ERR
+//!  sizes <rawhex> <pkt>                   generate_record_payload_sizes  -> S <i32>... | ERR
+//!  auth  <rawhex>                         send_authentication            -> W <hex> ... |  (| = flush)
+//!  shape <c|s> <rawhex> <op>...           a Session over the recording transport
+//!        ops: S start_client, U disable_buffering, F:cmd.sid.len.a.b write_frame,
+//!             D:sid.len.a.b write_data_frame   (payload byte i = (a + b*i) mod 256)
+//!        tokens starting with `draws=` are for the model side only and are skipped here
+//!  c19 <op>...                            one process history, run in a FRESH PROCESS (re-exec)
+//!        ops: D  PaddingFactory::default()            Q  md5 of the current default
+//!             C:<rawhex|default>  build the Client    N:<srvrawhex|->  new session (+ server peer)
+//!             K:<i>  flush packet 1 (Settings+SYN)    P:<i>:<rawhex>  deliver UpdatePaddingScheme
+//!             W:<i>:<len>  send one data frame        X:<i>:<hex> deliver raw bytes to session i
+//! Only API that exists on the pinned tree is used, so that a reverted fix still compiles.
 #![allow(unused_imports, dead_code)]
+use crate::transport::{ChanReader, REv, RecWriter, WEv, WHandle, bursts};
 use crate::util::{hex, unhex};
+use anytls_rs::client::Client;
+use anytls_rs::padding::PaddingFactory;
+use anytls_rs::protocol::{Command, Frame, FrameCodec};
+use anytls_rs::session::Session;
+use bytes::{Bytes, BytesMut};
+use std::sync::{Arc, Mutex};
+use tokio::sync::mpsc;
+use tokio_util::codec::{Decoder, Encoder};
+
+fn rt() -> tokio::runtime::Runtime {
+    tokio::runtime::Builder::new_current_thread()
+        .enable_all()
+        .start_paused(true)
+        .build()
+        .unwrap()
+}
+
+fn pattern(len: usize, a: u64, b: u64) -> Vec<u8> {
+    (0..len as u64)
+        .map(|i| ((a.wrapping_add(b.wrapping_mul(i))) & 0xff) as u8)
+        .collect()
+}
+
+fn log_tokens(log: &[WEv]) -> String {
+    let mut s = String::new();
+    for e in log {
+        match e {
+            WEv::Write(b) => {
+                s.push_str("W ");
+                s.push_str(&hex(b));
+                s.push(' ');
+            }
+            WEv::Flush => s.push_str("| "),
+            WEv::Shutdown => s.push_str("SHUTDOWN "),
+            WEv::Failed => s.push_str("FAILED "),
+        }
+    }
+    s
+}
+
+fn pfnew(args: &[&str]) -> String {
+    match PaddingFactory::new(&unhex(args[0])) {
+        Ok(f) => format!("OK {} {}", f.stop(), f.md5()),
+        Err(_) => "ERR".to_string(),
+    }
+}
+
+fn sizes(args: &[&str]) -> String {
+    let pkt: u32 = args[1].parse().unwrap();
+    match PaddingFactory::new(&unhex(args[0])) {
+        Ok(f) => {
+            let v = f.generate_record_payload_sizes(pkt);
+            let mut s = String::from("S");
+            for x in v {
+                s.push_str(&format!(" {}", x));
+            }
+            s
+        }
+        Err(_) => "ERR".to_string(),
+    }
+}
+
+fn auth(args: &[&str]) -> String {
+    let f = match PaddingFactory::new(&unhex(args[0])) {
+        Ok(f) => Arc::new(f),
+        Err(_) => return "ERR".to_string(),
+    };
+    let hash: [u8; 32] = core::array::from_fn(|i| (0xa0 + i) as u8);
+    rt().block_on(async move {
+        let (mut w, h) = RecWriter::new(None);
+        let r = anytls_rs::util::send_authentication(&mut w, &hash, &f).await;
+        let mut s = log_tokens(&h.log());
+        if r.is_err() {
+            s.push_str("E ");
+        }
+        s
+    })
+}
+
+fn parse_frame_spec(spec: &str) -> (u8, u32, usize, u64, u64) {
+    let p: Vec<&str> = spec.split('.').collect();
+    (
+        p[0].parse().unwrap(),
+        p[1].parse().unwrap(),
+        p[2].parse().unwrap(),
+        p[3].parse().unwrap(),
+        p[4].parse().unwrap(),
+    )
+}
+
+fn shape(args: &[&str]) -> String {
+    let role = args[0];
+    let f = match PaddingFactory::new(&unhex(args[1])) {
+        Ok(f) => Arc::new(f),
+        Err(_) => return "ERR".to_string(),
+    };
+    let ops: Vec<String> = args[2..].iter().map(|s| s.to_string()).collect();
+    rt().block_on(async move {
+        let (w, h) = RecWriter::new(None);
+        let (r, _tx) = ChanReader::new();
+        let sess = Arc::new(if role == "c" {
+            Session::new_client(r, w, f, None)
+        } else {
+            Session::new_server(r, w, f)
+        });
+        let mut out = String::new();
+        for op in ops.iter() {
+            if op.starts_with("draws=") {
+                continue;
+            }
+            let res = if op == "S" {
+                sess.clone().start_client().await.is_ok()
+            } else if op == "U" {
+                sess.disable_buffering();
+                true
+            } else if let Some(spec) = op.strip_prefix("F:") {
+                let (c, sid, len, a, b) = parse_frame_spec(spec);
+                let fr = Frame::with_data(Command::from(c), sid, Bytes::from(pattern(len, a, b)));
+                sess.write_frame(fr).await.is_ok()
+            } else if let Some(spec) = op.strip_prefix("D:") {
+                let full = format!("2.{}", spec);
+                let (_, sid, len, a, b) = parse_frame_spec(&full);
+                sess.write_data_frame(sid, Bytes::from(pattern(len, a, b)))
+                    .await
+                    .is_ok()
+            } else {
+                panic!("bad op {}", op)
+            };
+            for e in h.take_log() {
+                out.push_str(&log_tokens(&[e]));
+            }
+            if !res {
+                out.push_str("E ");
+            }
+            out.push_str("; ");
+        }
+        out
+    })
+}
+
+// ------------------------------------------------------------------------------------------ C19
+fn c19(args: &[&str]) -> String {
+    use std::io::Write;
+    use std::process::{Command as PCommand, Stdio};
+    let exe = std::env::current_exe().unwrap();
+    let mut child = PCommand::new(exe)
+        .stdin(Stdio::piped())
+        .stdout(Stdio::piped())
+        .stderr(Stdio::null())
+        .spawn()
+        .unwrap();
+    {
+        let mut stdin = child.stdin.take().unwrap();
+        let line = format!("c19child x {}\n", args.join(" "));
+        stdin.write_all(line.as_bytes()).unwrap();
+    }
+    let out = child.wait_with_output().unwrap();
+    let s = String::from_utf8_lossy(&out.stdout).to_string();
+    let s = s.trim();
+    match s.strip_prefix("x ") {
+        Some(r) => r.to_string(),
+        None => format!("CHILD-DIED {}", s.replace(' ', "_")),
+    }
+}
+
+struct CSess {
+    sess: Arc<Session>,
+    cw: WHandle,                       // what the client session wrote
+    to_client: mpsc::UnboundedSender<REv>, // feeds the client session's reader
+    sw: Option<WHandle>,               // what the server peer wrote
+    seen_srv_bytes: usize,
+}
+
+async fn settle() {
+    for _ in 0..300 {
+        tokio::task::yield_now().await;
+    }
+}
+
+fn decode_frames(b: &[u8]) -> (Vec<Frame>, usize) {
+    let mut buf = BytesMut::from(b);
+    let mut codec = FrameCodec;
+    let mut v = Vec::new();
+    while let Ok(Some(f)) = codec.decode(&mut buf) {
+        v.push(f);
+    }
+    (v, buf.len())
+}
+
+fn md5hex(b: &[u8]) -> String {
+    format!("{:x}", md5::compute(b))
+}
+
+fn lens(ws: &[Vec<u8>]) -> String {
+    if ws.is_empty() {
+        return "-".to_string();
+    }
+    ws.iter()
+        .map(|w| w.len().to_string())
+        .collect::<Vec<_>>()
+        .join(",")
+}
+
+fn writes_of(log: &[WEv]) -> Vec<Vec<u8>> {
+    log.iter()
+        .filter_map(|e| match e {
+            WEv::Write(b) => Some(b.clone()),
+            _ => None,
+        })
+        .collect()
+}
+
+/// canonical text of a settings frame: sorted `key=value` lines joined by `,`
+fn settings_canon(data: &[u8]) -> String {
+    let t = String::from_utf8_lossy(data).to_string();
+    let mut ls: Vec<&str> = t.split('\n').collect();
+    ls.sort();
+    ls.join(",")
+}
+
+fn frames_summary(fs: &[Frame]) -> String {
+    if fs.is_empty() {
+        return "-".to_string();
+    }
+    fs.iter()
+        .map(|f| match f.cmd {
+            Command::UpdatePaddingScheme => format!("upd:{}", md5hex(&f.data)),
+            Command::Settings | Command::ServerSettings => {
+                format!("{}:{}", u8::from(f.cmd), settings_canon(&f.data))
+            }
+            Command::Waste => format!("0:{}", f.data.len()),
+            c => format!("{}:{}:{}", u8::from(c), f.stream_id, f.data.len()),
+        })
+        .collect::<Vec<_>>()
+        .join("/")
+}
+
+type Slot = Arc<Mutex<Option<(WHandle, mpsc::UnboundedSender<REv>, Option<WHandle>)>>>;
+
+fn c19child(args: &[&str]) -> String {
+    let ops: Vec<String> = args.iter().map(|s| s.to_string()).collect();
+    rt().block_on(async move {
+        let mut out = String::new();
+        let mut client: Option<Arc<Client>> = None;
+        let mut sessions: Vec<CSess> = Vec::new();
+        let password = "pw";
+        let hash = anytls_rs::util::hash_password(password);
+        for op in ops.iter() {
+            if op == "D" {
+                let _ = PaddingFactory::default();
+                out.push_str("D ");
+            } else if op == "Q" {
+                out.push_str(&format!("Q {} ", PaddingFactory::default().md5()));
+            } else if let Some(raw) = op.strip_prefix("C:") {
+                let padding = if raw == "default" {
+                    PaddingFactory::default()
+                } else {
+                    match PaddingFactory::new(&unhex(raw)) {
+                        Ok(f) => Arc::new(f),
+                        Err(_) => return "CLIENT-SCHEME-ERR".to_string(),
+                    }
+                };
+                let cfg = anytls_rs::util::create_client_config().unwrap();
+                let connector = tokio_rustls::TlsConnector::from(cfg);
+                let sn = rustls::pki_types::ServerName::try_from("localhost".to_string()).unwrap();
+                let c = Client::new(
+                    password,
+                    "127.0.0.1:1".to_string(),
+                    sn,
+                    Arc::new(connector),
+                    padding,
+                );
+                c.stop_session_pool_cleanup().await;
+                client = Some(Arc::new(c));
+                out.push_str("C ");
+            } else if let Some(srv) = op.strip_prefix("N:") {
+                let c = client.as_ref().expect("C before N").clone();
+                let slot: Slot = Arc::new(Mutex::new(None));
+                let slot2 = slot.clone();
+                let srv_scheme: Option<Arc<PaddingFactory>> = if srv == "-" {
+                    None
+                } else {
+                    match PaddingFactory::new(&unhex(srv)) {
+                        Ok(f) => Some(Arc::new(f)),
+                        Err(_) => return "SERVER-SCHEME-ERR".to_string(),
+                    }
+                };
+                let connector: anytls_rs::client::VerifConnector = Arc::new(move || {
+                    // client -> server direction
+                    let (srv_reader, to_server) = ChanReader::new();
+                    let (cw, cwh) = RecWriter::new(Some(to_server));
+                    // server -> client direction
+                    let (cli_reader, to_client) = ChanReader::new();
+                    let mut swh_opt = None;
+                    if let Some(sf) = srv_scheme.clone() {
+                        let (sw, swh) = RecWriter::new(Some(to_client.clone()));
+                        swh_opt = Some(swh);
+                        let hash = hash;
+                        tokio::spawn(async move {
+                            let mut r = srv_reader;
+                            if anytls_rs::util::authenticate_client(&mut r, &hash, &sf)
+                                .await
+                                .is_err()
+                            {
+                                return;
+                            }
+                            let s = Arc::new(Session::new_server(r, sw, sf));
+                            let _ = s.recv_loop().await;
+                        });
+                    } else {
+                        drop(srv_reader); // RecWriter ignores a closed forward channel
+                    }
+                    *slot2.lock().unwrap() = Some((cwh, to_client, swh_opt));
+                    (
+                        Box::new(cli_reader) as Box<dyn tokio::io::AsyncRead + Send + Unpin>,
+                        Box::new(cw) as Box<dyn tokio::io::AsyncWrite + Send + Unpin>,
+                    )
+                });
+                c.verif_set_connector(Some(connector));
+                // make sure no pooled session is reused: this history step is "open a new session"
+                while c.verif_session_pool().get_idle_session().await.is_some() {}
+                let sess = match c.create_stream().await {
+                    Ok(s) => s,
+                    Err(_) => return format!("{}NEW-SESSION-ERR", out),
+                };
+                while c.verif_session_pool().get_idle_session().await.is_some() {}
+                settle().await;
+                let (cwh, to_client, swh) = slot.lock().unwrap().take().expect("connector used");
+                // the authentication preamble is everything written so far (Settings is still buffered)
+                let ws = writes_of(&cwh.take_log());
+                let all: Vec<u8> = ws.concat();
+                let plen = if all.len() >= 34 {
+                    (all[32] as usize) * 256 + all[33] as usize
+                } else {
+                    99999999
+                };
+                out.push_str(&format!("N {} {} ", all.len(), plen));
+                sessions.push(CSess {
+                    sess,
+                    cw: cwh,
+                    to_client,
+                    sw: swh,
+                    seen_srv_bytes: 0,
+                });
+            } else if let Some(i) = op.strip_prefix("K:") {
+                let i: usize = i.parse().unwrap();
+                let cs = &mut sessions[i];
+                cs.sess.disable_buffering();
+                let ok = cs
+                    .sess
+                    .write_frame(Frame::control(Command::Syn, 1))
+                    .await
+                    .is_ok();
+                settle().await;
+                let ws = writes_of(&cs.cw.take_log());
+                let (fs, rest) = decode_frames(&ws.concat());
+                let srv = match &cs.sw {
+                    Some(h) => {
+                        let b = h.bytes();
+                        let (sf, _) = decode_frames(&b[cs.seen_srv_bytes..]);
+                        cs.seen_srv_bytes = b.len();
+                        frames_summary(&sf)
+                    }
+                    None => "-".to_string(),
+                };
+                out.push_str(&format!(
+                    "K {} {} {} {} {} ",
+                    if ok { "ok" } else { "err" },
+                    lens(&ws),
+                    frames_summary(&fs),
+                    rest,
+                    srv
+                ));
+            } else if let Some(rest) = op.strip_prefix("P:") {
+                let (i, raw) = rest.split_once(':').unwrap();
+                let i: usize = i.parse().unwrap();
+                let cs = &mut sessions[i];
+                let fr = Frame::with_data(
+                    Command::UpdatePaddingScheme,
+                    0,
+                    Bytes::from(unhex(raw)),
+                );
+                let mut b = BytesMut::new();
+                FrameCodec.encode(fr, &mut b).unwrap();
+                let _ = cs.to_client.send(REv::Data(b.to_vec()));
+                settle().await;
+                out.push_str(&format!(
+                    "P {} ",
+                    if cs.sess.is_closed() { "closed" } else { "open" }
+                ));
+            } else if let Some(rest) = op.strip_prefix("X:") {
+                let (i, raw) = rest.split_once(':').unwrap();
+                let i: usize = i.parse().unwrap();
+                let cs = &mut sessions[i];
+                let _ = cs.to_client.send(REv::Data(unhex(raw)));
+                settle().await;
+                out.push_str(&format!(
+                    "X {} ",
+                    if cs.sess.is_closed() { "closed" } else { "open" }
+                ));
+            } else if let Some(rest) = op.strip_prefix("W:") {
+                let (i, len) = rest.split_once(':').unwrap();
+                let i: usize = i.parse().unwrap();
+                let len: usize = len.parse().unwrap();
+                let cs = &mut sessions[i];
+                let ok = cs
+                    .sess
+                    .write_data_frame(1, Bytes::from(pattern(len, 1, 1)))
+                    .await
+                    .is_ok();
+                settle().await;
+                let ws = writes_of(&cs.cw.take_log());
+                let (fs, rest) = decode_frames(&ws.concat());
+                out.push_str(&format!(
+                    "W {} {} {} {} ",
+                    if ok { "ok" } else { "err" },
+                    lens(&ws),
+                    frames_summary(&fs),
+                    rest
+                ));
+            } else {
+                panic!("bad op {}", op);
+            }
+        }
+        out
+    })
+}
 
 pub fn dispatch(drv: &str, args: &[&str]) -> Option<String> {
-    let _ = args;
     match drv {
+        "pfnew" => Some(pfnew(args)),
+        "sizes" => Some(sizes(args)),
+        "auth" => Some(auth(args)),
+        "shape" => Some(shape(args)),
+        "c19" => Some(c19(args)),
+        "c19child" => Some(c19child(args)),
         _ => None,
     }
 }
